@@ -29,6 +29,9 @@ func interleaveTenants(c *core.Ctx, runs []*tenantRun) string {
 		})
 	}
 	sim.run()
+	if sim.livelock {
+		return "statement-level"
+	}
 	if sim.deadlock {
 		c.Violate("deadlock", c.Property+"/interleaved-instances/deadlock", "independent instances block each other: no runnable thread while some wait for a lock")
 	}
